@@ -493,6 +493,34 @@ def eval_reader(case):
     return {"lines": [line], "impl": [impl], "violations": viol, "nontrivial": nontrivial, "stats": stats}
 
 
+def present_at(sc, n):
+    """vehicles connected at each timestep, from the scenario definition alone: an event takes effect at the first
+    step at or after its start time; initially connected vehicles until their first departure"""
+    import math
+    start = dt.datetime.fromisoformat(sc["scenario"]["start_time"])
+    step = dt.timedelta(minutes=sc["scenario"]["interval"])
+    conn = {vid: v.get("connected_charging_station") for vid, v in sc["components"]["vehicles"].items()}
+    evs = []
+    for e in sc["events"].get("vehicle_events", []):
+        st = dt.datetime.fromisoformat(e["start_time"])
+        if (st.tzinfo is None) != (start.tzinfo is None):
+            return None
+        idx = max(0, math.ceil((st - start) / step))
+        evs.append((idx, st, e))
+    evs.sort(key=lambda x: (x[0], x[1]))
+    out, k = [], 0
+    for t in range(n):
+        while k < len(evs) and evs[k][0] <= t:
+            e = evs[k][2]
+            if e["event_type"] == "departure":
+                conn[e["vehicle_id"]] = None
+            elif e["event_type"] == "arrival":
+                conn[e["vehicle_id"]] = e["update"].get("connected_charging_station")
+            k += 1
+        out.append({vid: c for vid, c in conn.items() if c})
+    return out
+
+
 def independent_band(flex, sched0, n, individual):
     """individual mode: the band generate_schedule builds, recomputed per timestep from the captured
     arrival records (sum over the vehicles standing at t) — not by replaying the code's loop"""
@@ -694,6 +722,34 @@ def eval_gen(case):
                     viol.append(("band_in_gc", "C13:collective_band_outside_rating",
                                  "step %d: band [%r, %r], rating %s" % (t, lo[t], hi[t], R)))
                     break
+            # independent necessary condition on the band's content (the band itself is an input of the model): it
+            # cannot be wider than what the vehicles PRESENT at t (scenario definition) and the batteries can do
+            pres = present_at(sc, n) if not bad else None
+            if pres is not None and len(flex["base"]) >= n:
+                comp = sc["components"]
+                bats = comp.get("batteries", {})
+                bat_dis = sum(max(p[1] for p in b["charging_curve"]) for b in bats.values()) if bats else 0.0
+                bat_chg = bat_dis
+                for t in range(n):
+                    base = flex["base"][t]
+                    if not (-R + EPS < base < R - EPS):
+                        continue
+                    dis = chg = 0.0
+                    for vid, csid in pres[t].items():
+                        vt = comp["vehicle_types"][comp["vehicles"][vid]["vehicle_type"]]
+                        cmax = max(p[1] for p in vt["charging_curve"])
+                        csmax = float(comp["charging_stations"][csid]["max_power"]) if csid in comp["charging_stations"] else 0.0
+                        chg += min(cmax, csmax)
+                        if vt.get("v2g"):
+                            dcurve = vt.get("discharge_curve")
+                            dmax = max(p[1] for p in dcurve) if dcurve else cmax * float(vt.get("v2g_power_factor", 0.5))
+                            dis += dmax * max(1.0, float(vt.get("v2g_power_factor", 0.5)))
+                    if lo[t] < max(-R, base - bat_dis - dis) - 1e-6 or hi[t] > min(R, base + bat_chg + chg) + 1e-6:
+                        viol.append(("in_band", "C13:flex_band_wider_than_present_vehicles_allow",
+                                     "step %d: band [%r, %r] around base %r; present %s can discharge %.3f / charge %.3f, "
+                                     "batteries %.3f" % (t, lo[t], hi[t], base, sorted(pres[t]), dis, chg, bat_dis)))
+                        break
+                stats.append("band_presence_checked")
         else:
             sched0 = [min(max(b, lo_), hi_) for b, lo_, hi_ in zip(flex["base"], flex["min"], flex["max"])]
             lo, hi = independent_band(flex, sched0, n, True)
